@@ -528,9 +528,6 @@ func (t *Transport) EnableForceHTTP2() *Transport {
 func (t *Transport) EnableH2C() *Transport {
 	t.Options.EnableH2C = true
 	t.t2.AllowHTTP = true
-	t.DialTLSContext = func(ctx context.Context, network, addr string) (net.Conn, error) {
-		return net.Dial(network, addr)
-	}
 	return t
 }
 
@@ -538,7 +535,6 @@ func (t *Transport) EnableH2C() *Transport {
 func (t *Transport) DisableH2C() *Transport {
 	t.Options.EnableH2C = false
 	t.t2.AllowHTTP = false
-	t.t2.DialTLSContext = nil
 	return t
 }
 
